@@ -194,14 +194,16 @@ def gen_ser_opts(rng, kind, cli):
 def gen_symbol(rng, cli, seq=False, maxlen=40):
     """Returns (content, make-kw). With cli the content is a str that argparse takes as one positional."""
     kw = {}
-    mode = rng.choice(('numeric', 'alphanumeric', 'byte', 'byte', 'kanji'))
+    mode = rng.choice(('numeric', 'alphanumeric', 'byte', 'byte', 'kanji', 'hanzi'))
     n = rng.randint(1, maxlen)
     if mode == 'byte':
         content = gen.text(rng, 'byte', n, rng.choice(('ascii', 'latin1')) if cli else None)
         if not cli and rng.random() < 0.2:
             content = ''.join(rng.choice(gen.UNI + gen.ASCII) for _ in range(n))
     else:
-        content = gen.text(rng, mode, n if mode != 'kanji' else max(1, n // 3))
+        content = gen.text(rng, mode, n if mode not in ('kanji', 'hanzi') else max(1, n // 3))
+        if mode == 'hanzi':
+            kw['mode'] = 'hanzi'
     if cli and isinstance(content, str):
         content = content.strip() or 'A'
         if content[0] == '-':
@@ -223,10 +225,12 @@ def gen_symbol(rng, cli, seq=False, maxlen=40):
             kw['micro'] = rng.choice((True, False))
         if rng.random() < 0.25 and kw.get('micro') is not True:
             kw['version'] = rng.randint(1, 12)
+    if kw.get('mode') == 'hanzi' and kw.get('micro') is True:
+        kw['micro'] = False
     if rng.random() < 0.4:
         kw['error'] = rng.choice('LMQH')
     if rng.random() < 0.3:
         kw['boost_error'] = False
     if rng.random() < 0.3:
-        kw['mask'] = rng.randrange(4)
+        kw['mask'] = rng.randrange(4) if (kw.get('micro') is True or rng.random() < 0.5) else rng.randrange(8)
     return content, kw
